@@ -146,6 +146,22 @@ fn size_ops(tier: Tier) -> Vec<(String, Vec<SendOp>)> {
       }
     }
   }
+  // a frame header straddling a record boundary: the first frame's size sweeps every position of the
+  // second frame's (2-byte short / 9-byte long) header across the end of the 1st (2nd, 3rd) record
+  let rec = 65_519usize;
+  let boundaries: Vec<usize> = if tier == Tier::Thorough { vec![1, 2, 3] } else { vec![1] };
+  for nrec in boundaries {
+    for k in 0..=18usize {
+      let a = nrec * rec + 4 - 9 - k; // encoded first frame ends 4 bytes past .. 14 bytes before the boundary
+      for second in [5usize, 300] {
+        v.push((format!("app[{},{}]+app[7] (header sweep)", a, second), vec![SendOp::App(vec![a, second]), SendOp::App(vec![7])]));
+        v.push((format!("batch[[{}],[{}]]+app[7] (header sweep)", a, second), vec![SendOp::Batch(vec![vec![a], vec![second]]), SendOp::App(vec![7])]));
+        if second == 300 || tier == Tier::Thorough {
+          v.push((format!("vectored[[{}],[{}]]+app[7] (header sweep)", a, second), vec![SendOp::BatchVectored(vec![vec![a], vec![second]]), SendOp::App(vec![7])]));
+        }
+      }
+    }
+  }
   // batches of small messages whose total crosses 64 KiB
   v.push(("batch[70x1000]".into(), vec![SendOp::Batch((0..70).map(|_| vec![1000]).collect())]));
   v.push(("batch[3x30000]".into(), vec![SendOp::Batch(vec![vec![30_000], vec![30_000], vec![30_000]])]));
